@@ -51,8 +51,14 @@ func (a *insertQueryAction) execute(th *Thread, ut *db19.UpdateTran) int {
 	qr, _, _ := Setup(a.query, ReadMode, ut)
 	hdr := qr.Header()
 	fields := ut.GetSchema(a.table).Columns
-	n := 0
+	// read all the rows before writing any
+	// so the query does not see the rows we output (if it reads the same table)
+	var rows []Row
 	for row := qr.Get(th, Next); row != nil; row = qr.Get(th, Next) {
+		rows = append(rows, row)
+	}
+	n := 0
+	for _, row := range rows {
 		rb := RecordBuilder{}
 		var tsField string
 		for _, f := range fields {
@@ -107,20 +113,22 @@ func (a *updateAction) execute(th *Thread, ut *db19.UpdateTran) int {
 	hdr := q.Header()
 	tran := MakeSuTran(ut)
 	ctx := ast.RowContext{Th: th, Tran: tran, Hdr: hdr}
-	n := 0
-	prev := uint64(0)
+	// read all the rows before updating any
+	// so the query does not see the updated rows again
+	// (e.g. when an update moves a row ahead in the index being read)
+	var rows []Row
 	for row := q.Get(th, Next); row != nil; row = q.Get(th, Next) {
-		// avoid getting stuck on the same record
-		if row[0].Off == prev {
-			continue
-		}
+		rows = append(rows, row)
+	}
+	n := 0
+	for _, row := range rows {
 		ctx.Row = row
 		r := SuRecordFromRow(row, hdr, table, tran)
 		for i, col := range a.cols {
 			r.Put(th, SuStr(col), a.exprs[i].Eval(&ctx))
 		}
 		newrec := r.ToRecord(th, hdr)
-		prev = ut.Update(th, table, row[0].Off, newrec)
+		ut.Update(th, table, row[0].Off, newrec)
 		n++
 	}
 	return n
